@@ -1,8 +1,8 @@
 """C05 — the server never overbooks a worker and only places tasks where they can run."""
-from hqrules.core import FailClosed, callee_of, callee_decl, op_local, op_place, place_key, place_fields, norm
+from hqrules.core import FailClosed, callee_of, callee_decl, op_local, op_place, place_key, place_fields, norm, op_const
 from hqrules.templates import (Effect, check_arm_effect, pick_scrutinee, effect_blocks, guard_edges, dominated_by_edges,
                                receiver_root_key, must_pass, state_writes, variants_at, call_sites, loop_headers_containing,
-                               local_field_sources)
+                               local_field_sources, scrutinees)
 from .common import *
 from . import reactor_table
 
@@ -201,6 +201,59 @@ def run(ctx):
             ctx.ob('R05.7', f'scheduler_loop|fresh time stamp|{k_}', not ys,
                    f'no await ({k_}) lies between the clock read and the scheduling round that uses it' + (f' (await at {sl.loc(ys[0])} reaches run_scheduling without a new Instant::now())' if ys else ''),
                    sl.loc(ys[0]) if ys else sl.loc(rb))
+
+    # ---- R05.8 the lifetime predicate itself
+    ctx.rule('R05.8', 'Worker::has_time_to_run answers "yes, unconditionally" only for a worker WITHOUT a time limit (termination_time == None read directly); with a limit the answer comes from a comparison of now + request with the limit (an expired worker must not look unlimited)')
+    OPT5 = 'core::option::Option'
+    ht = prog.body(WORKER + 'has_time_to_run')
+    tkeys = [k for k in scrutinees(ht, OPT5) if 'termination_time' in k]
+    uncond = [(bi, st) for bi in ht.reachable() for st in ht.stmts(bi) if st['k'] == 'a' and st['p'] == [0, []] and st['rv'][0] == 'use' and op_const(st['rv'][1]) is not None and str(op_const(st['rv'][1])).replace('const ', '').startswith('true')]
+    ok_u = all(tkeys and set(variants_at(ht, OPT5, bi, tkeys[0]) or ()) == {'None'} for bi, st in uncond)
+    lenient = []
+    for bi, t, c in ht.calls():
+        if bi in ht.reachable() and (c or '').startswith('core::option::Option::') and (c or '').endswith(('is_none_or', 'map_or', 'is_none', 'unwrap_or', 'unwrap_or_default', 'unwrap_or_else', 'map_or_else')):
+            pl = op_place(t['args'][0])
+            direct = pl is not None and any(f == 'termination_time' for f, a, v in place_fields(ht.canon(pl)))
+            if not direct:
+                lenient.append(bi)
+    ctx.ob('R05.8', 'has_time_to_run|unconditional yes only without a time limit', ok_u and not lenient and (bool(uncond) or any((c or '').startswith('core::option::Option::') for bi, t, c in ht.calls())),
+           'the answer "true" without a comparison is given only when the termination_time field itself is None (not when a derived Option such as remaining_time() is None: that is also None for an expired worker)', ht.loc(lenient[0]) if lenient else ht.loc())
+    cmpc = [bi for bi, t, c in ht.calls() if bi in ht.reachable() and (callee_decl(t) or '').endswith(('PartialOrd::le', 'PartialOrd::lt', 'PartialOrd::ge', 'PartialOrd::gt'))]
+    cmpc += [bi for p_ in prog.children(ht.path) for bi, t, c in prog.bodies[p_].calls() if (callee_decl(t) or '').endswith(('PartialOrd::le', 'PartialOrd::lt', 'PartialOrd::ge', 'PartialOrd::gt'))]
+    ctx.ob('R05.8', 'has_time_to_run|limit compared', bool(cmpc), 'with a time limit the request is compared with the limit', ht.loc(cmpc[0]) if cmpc and cmpc[0] < ht.n else ht.loc())
+
+    # ---- R05.9 worker side: every task the worker starts has passed its own lifetime test
+    ctx.rule('R05.9', 'worker: launch_task is reached only after the remaining lifetime of the worker was compared with the min_time of the request - on the direct path (try_alloc_and_start_task) and on the path that starts pre-sent tasks (prefill_loop), for which the server applies no lifetime gate')
+    WRE = T + 'worker::reactor::'
+    MINT = lambda c: c.endswith('ResourceRequest::min_time')
+    def gated(path, target_blocks_of):
+        """the target is dominated by the inspection of an Option<Duration> (the remaining lifetime; None = no limit) whose Some
+        arm compares it with min_time()"""
+        b_ = prog.body(path)
+        tb_ = target_blocks_of(b_)
+        sws = []
+        for bi_ in b_.reachable():
+            si_ = b_.switch_info(bi_)
+            if si_ and si_.get('kind') == 'discr' and si_.get('enum') == 'core::option::Option':
+                pl_ = si_['place']
+                ty_ = b_.locals[pl_[0]][0] if not pl_[1] else ''
+                if 'core::time::Duration' in ty_ and ty_.startswith('core::option::Option<'):
+                    sws.append(bi_)
+        mt_ = b_.call_blocks(MINT)
+        cmp_ = [bi_ for bi_, t_, c_ in b_.calls() if bi_ in b_.reachable() and (callee_decl(t_) or '').endswith(('PartialOrd::lt', 'PartialOrd::le', 'PartialOrd::gt', 'PartialOrd::ge'))
+                and any(op_local(a_) is not None and any(b_.term[m_]['d'][0] in b_.derived_from(op_local(a_), through_mutation=False) for m_ in mt_) for a_ in t_['args'])]
+        ok_ = bool(tb_) and bool(cmp_) and any(all(x not in b_.reach_from([0], avoid=[sw_]) for x in tb_) and any(c_ in b_.reach_after(sw_) for c_ in cmp_) for sw_ in sws)
+        return b_, sws, tb_, ok_
+    tsb, g0, l0, ok0 = gated(WRE + 'try_start_task', lambda b_: b_.call_blocks(WRE + 'launch_task'))
+    ctx.require(l0, 'R05.9: launch_task call in try_start_task')
+    if ok0:
+        ctx.ob('R05.9', 'try_start_task|lifetime test before launch', True, 'the min_time test dominates launch_task in the common funnel try_start_task', tsb.loc(l0[0]))
+    else:
+        for caller in ('try_alloc_and_start_task', 'prefill_loop'):
+            cb_, g_, tb_, okc = gated(WRE + caller, lambda b_: b_.call_blocks(WRE + 'try_start_task'))
+            ctx.ob('R05.9', f'{caller}|lifetime test before try_start_task', okc, f'try_start_task does not test the lifetime itself, so {caller} has to before it calls it', cb_.loc(tb_[0]) if tb_ else cb_.loc())
+    callers9 = set(o for o, b_, bi in call_sites(prog, WRE + 'launch_task') if not is_test_util(o))
+    ctx.ob('R05.9', 'launch_task|callers', callers9 == {WRE + 'try_start_task'}, f'launch_task is called only by try_start_task (observed {sorted(x.split("::")[-1] for x in callers9)})', None)
 
     # ---- R05.5 reactor rows + mapping rows
     n = reactor_table.run_rows(ctx, 'R05.5', 'C05')
